@@ -9,6 +9,8 @@ THEOREMS = ["Rink.Sandbox.serve_good", "Rink.Sandbox.sandbox_refines", "Rink.San
 SVC = os.path.join(vlib.HARNESS, "target", "release", "sbx_service")
 KINDS = ["add", "panic", "sleep", "oom", "exit", "big", "huge"]
 # a reply of 17 MiB (no framing limit may stand between a request and its reply)
+# the child dies in the middle of a reply (its output stops after 1 MiB of a 6 MiB frame): that request fails, the next ones are served
+DIE_SEQS = [["add", "diemid", "add", "add"], ["diemid", "add"], ["diemid", "diemid", "add"]]
 WIDE_SEQS = [["add", "wide", "add", "add"], ["wide", "wide", "add"], ["big", "wide", "panic", "add"]]
 # a reply that is still being received when the time limit ends: the child's output is slowed down for these
 # sequences only (a slowed child that panics or exits loses its last words, which would not be Rink's doing)
@@ -17,17 +19,18 @@ TIMEOUT_MS = 400
 LIMIT = 64 << 20
 
 def concretise(kinds):
-    return ["%s:%d" % (k, i + 1) if k in ("add", "sleep", "big", "huge", "blob", "wide") else k for i, k in enumerate(kinds)]
+    return ["%s:%d" % (k, i + 1) if k in ("add", "sleep", "big", "huge", "blob", "wide", "diemid") else k for i, k in enumerate(kinds)]
 
 def own(op):
     k = op.split(":")[0]
-    return {"add": "ok:" + op.split(":")[-1], "big": "ok:" + op.split(":")[-1], "sleep": "timeout", "panic": "panic", "oom": "crashed", "exit": "crashed", "huge": "crashed", "blob": "timeout", "wide": "ok:" + op.split(":")[-1]}[k]
+    return {"add": "ok:" + op.split(":")[-1], "big": "ok:" + op.split(":")[-1], "sleep": "timeout", "panic": "panic", "oom": "crashed", "exit": "crashed", "huge": "crashed", "blob": "timeout", "wide": "ok:" + op.split(":")[-1], "diemid": "crashed"}[k]
 
 def run_seq(args):
     ops, gap = args
     try:
         p = subprocess.run([SVC, "run", str(TIMEOUT_MS), str(LIMIT), str(gap)] + ops, stdout=subprocess.PIPE, stderr=subprocess.DEVNULL,
-                           timeout=60 + len(ops) * 8, env=dict(os.environ, RUST_BACKTRACE="0", **({"SBX_SLOW_STDOUT": "16384"} if any(o.startswith("blob") for o in ops) else {})))
+                           timeout=60 + len(ops) * 8, env=dict(os.environ, RUST_BACKTRACE="0", **({"SBX_SLOW_STDOUT": "16384"} if any(o.startswith("blob") for o in ops) else {}),
+                                    **({"SBX_SLOW_STDOUT": "65536", "SBX_DIE_AFTER": "1048576"} if any(o.startswith("diemid") for o in ops) else {})))
         out = p.stdout.decode().strip().split("\n")
     except subprocess.TimeoutExpired:
         out = ["hang"]
@@ -63,6 +66,7 @@ def run(c):
     jobs += [(concretise(s), g) for s in (["add", "add", "add"], ["add", "sleep", "add", "add"], ["add", "panic", "add"]) for g in (TIMEOUT_MS * 3 // 4, TIMEOUT_MS * 5 // 4, TIMEOUT_MS * 2)]
     jobs += [(concretise(s), g) for s in BLOB_SEQS for g in (0, 30)]
     jobs += [(concretise(s), g) for s in WIDE_SEQS for g in (0, 30)]
+    jobs += [(concretise(s), g) for s in DIE_SEQS for g in (0, 30)]
     with ThreadPoolExecutor(max_workers=16) as ex:
         results = list(ex.map(run_seq, jobs))
     # a reply that differs from the request's own outcome is re-checked with the machine to itself: the
@@ -82,7 +86,7 @@ def run(c):
     # model
     req_path = os.path.join(c.work, "req.txt")
     # (for the model a reply that arrives too late is an overrun like any other: `blob` is `sleep`)
-    open(req_path, "w").write("\n".join(" ".join(o.replace("blob:", "sleep:").replace("wide:", "big:") for o in ops) for ops, _, _, _ in results) + "\n")
+    open(req_path, "w").write("\n".join(" ".join(("exit" if o.startswith("diemid") else o.replace("blob:", "sleep:").replace("wide:", "big:")) for o in ops) for ops, _, _, _ in results) + "\n")
     if not c.run_model("sandbox"):
         return
     model = open(os.path.join(c.work, "model.txt")).read().split("\n")
